@@ -129,7 +129,31 @@ pub fn span_table<S: Src>(s: &mut S) {
     s.reached("c10.span_table");
 }
 
+/// the interpreter's string reader on arbitrary data bytes at an arbitrary position inside the
+/// data: never panics, never returns text outside the data, advances by exactly header + text
+pub fn read_str_total<S: Src, const N: usize>(s: &mut S) {
+    let mut buf = [0u8; N];
+    let mut i = 0;
+    while i < N {
+        buf[i] = s.u8();
+        i += 1;
+    }
+    let cut = s.below(N as u8 + 1) as usize;
+    let p = s.below(N as u8 + 1) as usize;
+    s.assume(p <= cut);
+    let mut ip = p;
+    match read_str(&mut ip, &buf[..cut]) {
+        Some(st) => {
+            assert!(ip == p + 4 + st.len(), "C10.str.read_str_advances_past_the_string");
+            assert!(ip <= cut, "C10.str.read_str_stays_inside_the_data");
+        }
+        None => assert!(ip == p, "C10.str.failed_read_does_not_advance"),
+    }
+    s.reached("c10.read_str_total");
+}
+
 crate::harnesses! {
+    c10_read_str_total_8 / 12 => read_str_total::<_, 8>;
     c10_roundtrip_ints_k0 / 10 => roundtrip_ints::<_, 0>;
     c10_roundtrip_ints_k3 / 10 => roundtrip_ints::<_, 3>;
     c10_roundtrip_float_handle_k1 / 10 => roundtrip_float_handle::<_, 1>;
